@@ -27,7 +27,7 @@ fn vk_find_min_index_contract<const P: usize>() {
 #[kani::proof] #[kani::unwind(4)] fn vk_find_min_index_p2() { vk_find_min_index_contract::<2>() }
 // @harness vk_find_min_index_p3 props=C01,C12,C17 kind=bounded(period=3) tier=quick
 #[kani::proof] #[kani::unwind(5)] fn vk_find_min_index_p3() { vk_find_min_index_contract::<3>() }
-// @harness vk_find_min_index_p6 props=C01,C12,C17 kind=bounded(period=6) tier=thorough
+// @harness vk_find_min_index_p6 props=C01,C12,C17 kind=bounded(period=6) tier=quick
 #[kani::proof] #[kani::unwind(8)] fn vk_find_min_index_p6() { vk_find_min_index_contract::<6>() }
 
 // one next() from any shape-valid state with any buffer content and any input: no panic, cursors stay in range
